@@ -76,7 +76,8 @@ func testSkipped(testID, runOnly string) bool {
 		}
 	}
 
-	matched, _ := regexp.MatchString(runOnly, testID)
+	// -run selects tests by name: the " - <occurrence>" suffix of the id is not part of it
+	matched, _ := regexp.MatchString(runOnly, testName)
 	return !matched
 }
 
